@@ -5,6 +5,7 @@ import Robsd.Model.RegressLog
 import Robsd.Model.StepFile
 import Robsd.Model.StepNext
 import Robsd.Model.Report
+import Robsd.Model.Ls
 /-
   robsd_model: the executable models behind a line protocol.
   One request per line: `<component> <op> <args…>`; byte strings are hex
@@ -91,8 +92,16 @@ def reportOf (ws : List String) : String :=
     | none => "1 -"
     | some out => s!"0 {toHex (cstr out)}"
 
+def entOf (s : String) : Option Ls.Ent :=
+  match s.splitOn ":" with
+  | n :: k :: [] => some ⟨hexArg n, match k with | "d" => .dir | "f" => .file | "l" => .symlink | _ => .other⟩
+  | _ => none
+
 def handle (ws : List String) : String :=
   match ws with
+  | "ls" :: root :: keep :: b :: lock :: ents :: [] =>
+    let r := Ls.lsCmd (hexArg root) (hexArg keep) (b == "1") (optHex lock) (some ((listOf ents).filterMap entOf))
+    s!"{r.1} " ++ ",".intercalate (r.2.map toHex)
   | "report" :: rest => reportOf rest
   | "fmt" :: "duration" :: d :: delta :: thr :: [] =>
     toHex (Report.formatDurationDelta (d.toInt?.getD 0) (delta.toInt?.getD 0) (thr.toInt?.getD 0))
